@@ -12,6 +12,7 @@ from streamflow.cwl import utils as cu
 
 from sfv.framework import Ctx, Property
 from sfv.rt.hexs import hx, unhx
+from sfv.translate import remapkeys
 
 DRIVER = "Drivers/C32.lean"
 ESC = re.compile(r"%[0-9a-fA-F]{2}")
@@ -188,7 +189,7 @@ class C32(Property):
     lean_targets = ["SFV.Props.C32", "SFV.Model.Proto"]
     props_files = ["SFV/Props/C32.lean"]
     drivers = [DRIVER]
-    translators = []
+    translators = [remapkeys.generate]
     rule = ("random nested CWL values (arrays, records, File/Directory objects with path and/or location — plain or file:// —, "
             "secondaryFiles, listing, `type`-keyed File objects, other URL schemes, non-file strings that look like paths) whose "
             "file names are drawn from plain, odd (spaces, unicode, `:#?[]%`), percent-escaped (ASCII, UTF-8 multi-byte, invalid "
@@ -198,6 +199,8 @@ class C32(Property):
             "outside-old and malformed paths), urllib.parse.unquote and urlsplit().scheme against the Lean model. "
             "Non-trivial = distinct value containing a File/Directory object, or a path with an odd/escaped name.")
     trusted_base = [
+        "translator harness/sfv/translate/remapkeys.py (the keys `class`/`type`, `location`/`path`, `secondaryFiles`/`listing`, the "
+        "class names, the `file` scheme literal, `path[7:]` and the `file://` prefix are read from the source into SFV/Gen/RemapKeys.lean)",
         "modelled, not verified (each compared with CPython on every run): urllib.parse.unquote (percent decoding of ASCII runs, "
         "UTF-8 decode with replacement), urlsplit().scheme, posixpath.relpath/abspath/normpath/join, dict order",
         "CWL values are modelled as cons chains (null/str/int/list/object); floats and booleans inside values are not modelled "
@@ -211,8 +214,9 @@ class C32(Property):
                   "`%` nor `:` under normalised absolute directories, for plain paths and file:// locations, through "
                   "secondaryFiles/listing/arrays/records; non-file values and other schemes proved untouched")
     level_note = ("Lean kernel, axioms within {propext, Classical.choice, Quot.sound}; hand-written model of the function and of the "
-                  "stdlib pieces it calls, tied to CPython by the correspondence check")
+                  "stdlib pieces it calls, tied to CPython by the correspondence check; keys and literals come from the source (translator)")
     assumptions = ["path_processor = posixpath (remote, POSIX); File `path`/`location` entries are strings"]
+    quick_budget_s = 480          # generous: the machine may be heavily loaded
     min_nontrivial = 50
 
     def explore(self, ctx: Ctx) -> None:
@@ -254,7 +258,9 @@ class C32(Property):
             n *= 3
         for i in range(n):
             if ctx.out_of_time():
-                ctx.extra["incomplete"] = True
+                ctx.extra["values_run"] = i
+                if i < 150:
+                    ctx.extra["incomplete"] = True
                 break
             old, new = rng.sample(DIRS, 2)
             if rng.random() < 0.06:
